@@ -78,21 +78,53 @@ def hygiene(files):
     return bad
 
 
-def build_coq():
-    """Regenerate gen/, build theories with make -k.  Returns (ok_files, failed_files, log)."""
+def theory_path(name):
+    for d in ("theories", "gen"):
+        f = os.path.join(COQ, d, name + ".v")
+        if os.path.exists(f):
+            return f
+    return os.path.join(COQ, "theories", name + ".v")
+
+
+def dep_closure(names):
+    """Transitive closure of `From PV/PVG Require Import/Export ...` starting from the given base names."""
+    seen, todo = [], list(names)
+    while todo:
+        n = todo.pop()
+        if n in seen:
+            continue
+        seen.append(n)
+        f = theory_path(n)
+        if not os.path.exists(f):
+            continue
+        txt = strip_comments(open(f).read())
+        for m in re.finditer(r"From\s+(?:PV|PVG)\s+Require\s+(?:Import|Export)\s+([^.]*)\.", txt):
+            todo += m.group(1).split()
+        for m in re.finditer(r"Require\s+(?:Import|Export)\s+((?:PVG?\.\w+\s*)+)\.", txt):
+            todo += [x.split(".")[1] for x in m.group(1).split()]
+    return seen
+
+
+def build_coq(needs=None):
+    """Regenerate gen/, build the needed theories (or everything) with make -k.  Returns (ok_files, failed_files, log)."""
     gen = os.path.join(VERIF, "harness", "py2v.py")
     gen_log = ""
     if os.path.exists(gen):
         p = subprocess.run([PY, gen], capture_output=True, text=True, env=py_env())
         gen_log = p.stdout + p.stderr
-    p = subprocess.run([os.path.join(COQ, "build.sh"), "-k"], capture_output=True, text=True)
+    if needs is None:
+        files = [os.path.join(COQ, d, f) for d in ("theories", "gen") if os.path.isdir(os.path.join(COQ, d))
+                 for f in sorted(os.listdir(os.path.join(COQ, d))) if f.endswith(".v")]
+        targets = []
+    else:
+        files = [theory_path(n) for n in dep_closure(needs)]
+        targets = [os.path.relpath(f, COQ)[:-2] + ".vo" for f in files if os.path.exists(f)]
+    p = subprocess.run([os.path.join(COQ, "build.sh"), "-k", *targets], capture_output=True, text=True)
     log = gen_log + p.stdout + p.stderr
-    files = [os.path.join(COQ, d, f) for d in ("theories", "gen") if os.path.isdir(os.path.join(COQ, d))
-             for f in sorted(os.listdir(os.path.join(COQ, d))) if f.endswith(".v")]
     ok, failed = [], []
     for f in files:
         vo = f[:-2] + ".vo"
-        if os.path.exists(vo) and os.path.getmtime(vo) >= os.path.getmtime(f):
+        if os.path.exists(f) and os.path.exists(vo) and os.path.getmtime(vo) >= os.path.getmtime(f):
             ok.append(f)
         else:
             failed.append(f)
@@ -133,12 +165,17 @@ def compile_property(pid):
 def proof_gate(ctx, needs):
     """Build, hygiene, compile the property file.  `needs` = theory/gen base names the property rests on.
     Returns dict(obligations, discharged, broken=[names], axioms, log)."""
-    ok, failed, log = build_coq()
+    psrc = os.path.join(COQ, "properties", f"{ctx.pid}.v")
+    if os.path.exists(psrc):
+        ptxt = strip_comments(open(psrc).read())
+        for m in re.finditer(r"From\s+(?:PV|PVG)\s+Require\s+(?:Import|Export)\s+([^.]*)\.", ptxt):
+            needs = list(needs) + [x for x in m.group(1).split() if x not in needs]
+    ok, failed, log = build_coq(needs)
     failed_names = [os.path.basename(f)[:-2] for f in failed]
-    all_v = ok + failed + [os.path.join(COQ, "properties", f) for f in os.listdir(os.path.join(COQ, "properties")) if f.endswith(".v")]
+    all_v = [f for f in ok + failed if os.path.exists(f)] + [os.path.join(COQ, "properties", f"{ctx.pid}.v")]
     bad = hygiene(all_v)
     prop = compile_property(ctx.pid)
-    broken = [n for n in needs if n in failed_names]
+    broken = list(failed_names)
     obligations = list(prop["theorems"])
     discharged = obligations if (prop["ok"] and not broken) else []
     axioms = sorted({a for l in prop["assumptions"].values() for a in l})
@@ -337,6 +374,79 @@ def write_evidence(ctx, *, evaluations, distinct_nontrivial, rule, samples, trus
               assumptions=list(assumptions), wall_s=round(time.time() - ctx.t0, 2), violations=len(ctx.violations))
     os.makedirs(os.path.join(VERIF, "evidence"), exist_ok=True)
     json.dump(ev, open(os.path.join(VERIF, "evidence", f"{ctx.pid}.json"), "w"), indent=1, default=str)
+
+
+def conclude(ctx, *, cases, impl_out, bad_spec, bad_impl, crashed, problem, guard_viol=None, show=None, shrink=None,
+             spec_name="Spec", impl_name="Impl", witness_check=None):
+    """Common verdict logic (DESIGN.md 2.3).
+    bad_spec / bad_impl : indices where the real code differs from the Spec / from the mechanism model Impl
+    crashed            : indices where the real-code run failed in a way the model does not predict (harness error / crash)
+    guard_viol         : {index: [names of formal guards the case violates]}; a case outside the guard of a *listed* known finding
+                         is attributed to that finding
+    show(case, out)    : extra diagnostic dict for the replay file;  shrink(case) -> smaller failing case
+    witness_check(f)   : re-runs the committed witness of known finding f on the real code, True if it still fails."""
+    guard_viol = guard_viol or {}
+    findings = known_findings(ctx.pid)
+    listed = {f.get("guard") for f in findings}
+    attributed, fresh = {}, []
+    for i in sorted(set(bad_spec) | set(crashed)):
+        gv = [g for g in guard_viol.get(i, []) if g in listed]
+        if gv:
+            attributed.setdefault(gv[0], []).append(i)
+        else:
+            fresh.append(i)
+    reported = False
+    for i in fresh[:3]:
+        case = cases[i]
+        if shrink and i in bad_spec:
+            try:
+                case = shrink(case)
+            except Exception as e:
+                ctx.note(f"shrinking failed: {e}")
+        payload = dict(case=case, implementation_output=impl_out[i] if case is cases[i] else "(re-run on the shrunk case: see diagnostic)",
+                       what=f"the real code disagrees with {spec_name} on this input", guards_violated=guard_viol.get(i, []))
+        if show:
+            try:
+                payload["diagnostic"] = show(case)
+            except Exception as e:
+                payload["diagnostic"] = f"(diagnostic failed: {e})"
+        violation(ctx, write_replay(ctx, "counterexample", payload)); reported = True
+    drift = [i for i in bad_impl if i not in bad_spec and i not in crashed]
+    drift_in = [i for i in drift if not guard_viol.get(i)]
+    if drift_in and not reported:
+        i = drift_in[0]
+        payload = dict(broken=f"correspondence: real code = {impl_name} (mechanism model); the code still meets {spec_name} on everything explored",
+                       case=cases[i], implementation_output=impl_out[i], cases_affected=len(drift_in))
+        if show:
+            try:
+                payload["diagnostic"] = show(cases[i])
+            except Exception as e:
+                payload["diagnostic"] = f"(diagnostic failed: {e})"
+        violation(ctx, write_replay(ctx, "correspondence", payload), no_input=True); reported = True
+    if drift and not drift_in:
+        ctx.note(f"{len(drift)} cases outside the guards agree with {spec_name} but not with {impl_name}: the code is better than the model there (no alarm)")
+    if problem and not reported:
+        violation(ctx, write_replay(ctx, "proof", dict(broken=problem, searched_cases=len(cases))), no_input=True); reported = True
+    for f in findings:
+        still = True
+        if witness_check:
+            try:
+                still = witness_check(f)
+            except Exception as e:
+                ctx.note(f"witness of {f['id']} could not be replayed: {e}")
+        n_attr = len(attributed.get(f.get("guard"), []))
+        if still:
+            known(ctx, f"{f['id']}: {f['text']} (witness still fails; {n_attr} generated cases of this class attributed)")
+        else:
+            ctx.note(f"known finding {f['id']} no longer reproduces on its committed witness")
+    return dict(attributed={k: len(v) for k, v in attributed.items()}, fresh=len(fresh), drift=len(drift))
+
+
+def load_corpus(pid):
+    cdir = os.path.join(VERIF, "corpus", pid)
+    if not os.path.isdir(cdir):
+        return []
+    return [json.load(open(os.path.join(cdir, f))) for f in sorted(os.listdir(cdir)) if f.endswith(".json")]
 
 
 def canon(x):
